@@ -230,6 +230,8 @@ DESIGN = {
     # (module, cfg, tiers, heap): exhaustive design models; a failure is the machinery's problem (exit 2), never a verdict on the code
     "snap": [("MC_Snap", "MC_Snap_live.cfg", ("quick", "thorough"), "3g"), ("MC_Snap", "MC_Snap_tri.cfg", ("thorough",), "10g"),
              ("MC_Snap", "MC_Snap_frame.cfg", ("thorough",), "10g")],
+    # every quadrilateral (incl. bow-ties, which must be left alone or rejected) on the 5x5 lattice: 8.13 M states, 2 min 20 s at 8 workers
+    "snapquad": [("MC_Snap", "MC_Snap_quad.cfg", ("thorough",), "10g")],
     "rounding": [("MC_SnapRounding", "MC_SnapRounding.cfg", ("thorough",), "10g")],
     "descent": [("Descent", "MC_Descent.cfg", ("quick", "thorough"), "6g")],
     "levels": [("LevelArith", "MC_LevelArith.cfg", ("quick", "thorough"), "3g")],
@@ -383,6 +385,30 @@ def chains_lines(drv, tier, every_quick=4, every_thorough=3, want_kmp=True):
     finally:
         vlib.rm(d)
     return kl, sl, len(r.vecs), r
+
+
+def f13_key_matches(rec, cfg="SnapTrace_C04.cfg"):
+    """Known finding F13 is keyed by the input: at a requested level the routed boundary the specification computes runs along
+    the same directed edge more than once (multi-turn spiral thinner than a pixel), and the coverage clause fails ONLY at such
+    levels (the record restricted to the other levels satisfies the whole configuration). Returns the list of those levels or None."""
+    r = vlib.run_tlc("SnapTrace", "SnapTrace_chains.cfg", data={"snap_trace.ndjson": json.dumps(rec) + "\n"}, workers=2, timeout=900)
+    if not r.ok or not r.vecs:
+        raise Broken("cannot compute the routed boundary of the failing input: %s" % (r.violated or r.error))
+    rep = [lv["z"] for lv in r.vecs[0]["lv"] if lv["rep"]]
+    if not rep:
+        return None
+    rest = [lv for lv in rec["lv"] if lv["z"] not in rep]
+    if rest:
+        rec2 = dict(rec)
+        rec2["lv"] = rest
+        rec2["res"] = [x for x in rec["res"] if x["z"] not in rep]
+        rec2["ids"] = [z for z in rec.get("ids", []) if z not in rep]
+        r2 = vlib.run_tlc("SnapTrace", cfg, data={"snap_trace.ndjson": json.dumps(rec2) + "\n"}, workers=2, timeout=900, want_vecs=False)
+        if not r2.ok:
+            if r2.violated:
+                return None          # it also fails where the boundary does not repeat an edge: not this finding
+            raise Broken("cannot re-validate the restricted record: %s" % r2.error)
+    return rep
 
 
 def f5_key_matches(drv, rec_lines):
